@@ -223,10 +223,13 @@ func NewClient(conn io.ReadWriteCloser, o ...ClientOpt) (*Client, error) {
 // This should only be called with the token from recvr. Note that the received
 // tag will automatically be cleared from pending.
 func (c *Client) handleOne() {
+	// found is the response the lookup accepted the frame for.
+	var found *response
 	t, r, err := recv(c.log, c.conn, c.messageSize, func(t tag, mt msgType) (message, error) {
 		c.pendingMu.Lock()
 		resp := c.pending[t]
 		c.pendingMu.Unlock()
+		found = resp
 
 		// Not expecting this message?
 		if resp == nil {
@@ -266,6 +269,13 @@ func (c *Client) handleOne() {
 		// above must have succeeded (found the tag) to return nil err.
 		c.pendingMu.Lock()
 		resp := c.pending[t]
+		if resp == nil || resp != found {
+			// The call that registered t withdrew its response (its send
+			// failed) while the reply was being read, and the tag may
+			// already belong to another call: nobody waits for this frame.
+			c.pendingMu.Unlock()
+			return
+		}
 		delete(c.pending, t)
 		c.pendingMu.Unlock()
 		resp.r = r
@@ -312,7 +322,12 @@ func (c *Client) sendRecv(tm message, rm message) error {
 	// Note that the tag will be cleared from pending
 	// automatically (see handleOne for details).
 	resp := responsePool.Get().(*response)
-	defer responsePool.Put(resp)
+	recycle := true
+	defer func() {
+		if recycle {
+			responsePool.Put(resp)
+		}
+	}()
 	resp.r = rm
 	c.pendingMu.Lock()
 	c.pending[tag(t)] = resp
@@ -336,6 +351,9 @@ func (c *Client) sendRecv(tm message, rm message) error {
 		default:
 		}
 		c.pendingMu.Unlock()
+		// A frame for this tag may be in the middle of being received on
+		// behalf of resp; do not hand resp to another call.
+		recycle = false
 		return fmt.Errorf("send: %w", err)
 	}
 
